@@ -84,29 +84,29 @@ def prefixGo (pre : List Char) : Bool → List Char → List Char
     if ac && c == ' ' then c :: pre ++ prefixGo pre false rest else c :: prefixGo pre (c == ',') rest
 
 /-- `", ".join(prefix + p for p in group.split(", "))`.
-src: mokapot/picked_protein.py:207-209 -/
+src: mokapot/picked_protein.py:209-211 -/
 def prefixGroup (pre g : List Char) : List Char := pre ++ prefixGo pre false g
 
 /-- one item of `decoy_map`: `proteins.peptide_map[target_peptide]` (KeyError ↦ none).
-src: mokapot/picked_protein.py:206-209 -/
+src: mokapot/picked_protein.py:208-211 -/
 def decoyItem (P : Proteins) (dt : List Char × List Char) : Option (List Char × List Char) :=
   (P.peptideMap.lookup dt.2).map (fun g => (dt.1, prefixGroup P.decoyPrefix g))
 
 /-- `proteins.peptide_map[target_peptide]` raises KeyError when `match_decoy` paired a
 decoy with something that is not a key of the peptide map (it never does).
-src: mokapot/picked_protein.py:206-207 -/
+src: mokapot/picked_protein.py:208-209 -/
 def pairingKeyError (P : Proteins) (dm : List (List Char × List Char)) : Bool :=
   !P.hasDecoys && dm.any (fun dt => (P.peptideMap.lookup dt.2).isNone)
 
 /-- the second lookup table: empty when the FASTA has decoys, otherwise the
 decoy-peptide ↦ mirrored-group map built from the pairing `dm` of `match_decoy`.
-src: mokapot/picked_protein.py:50-57, 195-209 -/
+src: mokapot/picked_protein.py:50-57, 195-211 -/
 def decoyMap (P : Proteins) (dm : List (List Char × List Char)) : List (List Char × List Char) :=
   if P.hasDecoys then [] else dm.filterMap (decoyItem P)
 
 /-- protein group of a stripped sequence: `peptide_map.get`, and where that is
 missing `decoy_map.get` (for *every* row, targets included).
-src: mokapot/picked_protein.py:171, 212-216 -/
+src: mokapot/picked_protein.py:171, 214-218 -/
 def groupOf (P : Proteins) (dmap : List (List Char × List Char)) (s : List Char) : Option (List Char) :=
   (P.peptideMap.lookup s).orElse (fun _ => dmap.lookup s)
 
@@ -298,5 +298,113 @@ def renderPeptide (fl : Option (List Char × List Char)) (toks : List Tok) : Lis
 def flanksOk : Option (List Char × List Char) → Prop
   | none => True
   | some (l, r) => flankOk l ∧ flankOk r
+
+/-! ## `match_decoy` and the pairing of `group_without_decoys` (target-only FASTA)
+
+`match_decoy(decoys, targets, rng)` shuffles the target peptides (`targets.sample(frac=1,
+random_state=rng)` — the arrangement `shuffled` is the parameter that stands for the draw),
+files them by composition key in shuffled order and lets every decoy, in table order, `pop()`
+the last unused target of its own key.  -/
+
+/-- insertion into a sorted list (any sorting routine gives the same list for a total
+antisymmetric order; `sorted()` of Python is one) -/
+def insertBy {β : Type} (le : β → β → Bool) (x : β) : List β → List β
+  | [] => [x]
+  | y :: ys => if le x y then x :: y :: ys else y :: insertBy le x ys
+
+def sortBy {β : Type} (le : β → β → Bool) : List β → List β
+  | [] => []
+  | x :: xs => insertBy le x (sortBy le xs)
+
+def charLe (a b : Char) : Bool := decide (a ≤ b)
+
+/-- `_sort(peptide)` = `"".join(sorted(peptide))`, the composition key of a *target* peptide
+(`ignore_mods=True`). src: mokapot/peptides.py:56-89 -/
+def targetComp (s : Str) : Str := sortBy charLe s
+
+def consTok (c : Char) : List Str → List Str
+  | [] => [[c]]
+  | t :: ts => (c :: t) :: ts
+
+/-- is the next character (if any) the start of a new piece? -/
+def startsUpper : Str → Bool
+  | [] => true
+  | c :: _ => c.isUpper
+
+/-- `re.split("(?=[A-Z])", s)` without its empty pieces: a new piece starts in front of every
+upper-case letter (the empty pieces sort first and add nothing to the joined key).
+src: mokapot/peptides.py:45 -/
+def splitUpper : Str → List Str
+  | [] => []
+  | c :: cs => if startsUpper cs then [c] :: splitUpper cs else consTok c (splitUpper cs)
+
+/-- `"".join(sorted(comp))`, the composition key of a *decoy* peptide. src: mokapot/peptides.py:45-48 -/
+def decoyComp (s : Str) : Str := (sortBy strLe (splitUpper s)).flatten
+
+/-- `targ_comps[key].pop()` on the pool kept in *reverse* shuffled order: the first pool
+element with that key is the last one filed under it. `none` = `IndexError` (empty or
+missing list). src: mokapot/peptides.py:41, 48-50 -/
+def popFirst (k : Str) : List Str → Option (Str × List Str)
+  | [] => none
+  | t :: ts => if targetComp t = k then some (t, ts) else (popFirst k ts).map (fun x => (x.1, t :: x.2))
+
+/-- `decoy_map[decoy] = target` on an insertion-ordered dict -/
+def dictSet (k v : Str) : List (Str × Str) → List (Str × Str)
+  | [] => [(k, v)]
+  | kv :: rest => if kv.1 = k then (k, v) :: rest else kv :: dictSet k v rest
+
+/-- one iteration of the loop over the decoys (state: remaining pool, `decoy_map`).
+src: mokapot/peptides.py:46-50 -/
+def matchStep (st : List Str × List (Str × Str)) (d : Str) : List Str × List (Str × Str) :=
+  ((popFirst (decoyComp d) st.1).map (fun x => (x.2, dictSet d x.1 st.2))).getD st
+
+/-- `match_decoy(decoys, targets, rng)` where `shuffled` is `targets` as arranged by the draw.
+src: mokapot/peptides.py:8-52 -/
+def matchDecoy (shuffled decoys : List Str) : List (Str × Str) :=
+  (decoys.foldl matchStep (shuffled.reverse, [])).2
+
+/-- `Series.unique()`: the distinct values in order of first appearance -/
+def uniqueFirst : List Str → List Str
+  | [] => []
+  | x :: xs => x :: (uniqueFirst xs).filter (fun y => y != x)
+
+/-- the distinct stripped sequences of the non-target rows, in table order.
+src: mokapot/picked_protein.py:195-197 -/
+def decoySeqs (rows : List (Row α)) : List Str :=
+  uniqueFirst (((rows.zip (stripCol (rows.map (fun r => r.peptide)))).filter (fun rs => !rs.1.target)).map
+    (fun rs => rs.2))
+
+/-- the targets handed to `match_decoy`: the keys of the unique-peptide map, *sorted* (the key
+order of the map depends on the hash seed; sorted, the seeded draw does not).
+src: mokapot/picked_protein.py:199-204 -/
+def pairingTargets (P : Proteins) : List Str := sortBy strLe (P.peptideMap.map Prod.fst)
+
+/-- the pairing `group_without_decoys` obtains: `match_decoy` of the table's decoy sequences
+against `pairingTargets`, `shuffled` being those targets as arranged by the seeded draw.
+src: mokapot/picked_protein.py:195-204 -/
+def pairing (shuffled : List Str) (rows : List (Row α)) : List (Str × Str) :=
+  matchDecoy shuffled (decoySeqs rows)
+
+/-- `picked_protein` with the pairing computed as the code computes it (instead of given).
+src: mokapot/picked_protein.py:15-118, 174-218 -/
+def pickedFull (le : α → α → Bool) (P : Proteins) (shuffled : List Str) (rows : List (Row α)) :
+    Except Err (List (Entry α)) :=
+  picked le P (pairing shuffled rows) rows
+
+/-! ## The protein level of `assign_confidence`: orientation of the scores and the two result files -/
+
+/-- `assign_confidence(descs=[False])`: a lower-is-better score is replaced by its negation
+before sorting, competition and `picked_protein`. src: mokapot/confidence.py:630-636 -/
+def orient (neg : α → α) (desc : Bool) (rows : List (Row α)) : List (Row α) :=
+  if desc then rows else rows.map (fun r => ⟨r.target, r.peptide, neg r.score⟩)
+
+/-- `targets.proteins` and — only when `decoys=True` — `decoys.proteins`: the rows of the protein
+level table `arr` (entries in the order `sort_values(by=score, ascending=False)` left them) with
+the q-values computed over *all* of them, routed by their target flag.
+src: mokapot/confidence.py:380-390, 396-414, confidence_writer.py:112-113, 139-150 -/
+def proteinFiles (qv : List (α × Bool) → List Rat) (decoys : Bool) (arr : List (Entry α)) :
+    List (Entry α × Rat) × Option (List (Entry α × Rat)) :=
+  ((proteinLevel qv arr).filter (fun x => x.1.target),
+   if decoys then some ((proteinLevel qv arr).filter (fun x => !x.1.target)) else none)
 
 end Mk.Picked
